@@ -82,3 +82,34 @@ Theorem c12_validate_before_write_safe : forall sched,
   StampRace.someone_served (StampRace.run true StampRace.init sched) = false.
 Proof. exact StampRaceProofs.stamp_race_validate_first. Qed.
 Print Assumptions c12_validate_before_write_safe.
+
+(* ---- after a refresh the session carries the new tokens AND is usable ---- *)
+From V.Lib Require Import Bytes.
+From V.Model Require Lifetime.
+From V.Proofs Require LifetimeProofs.
+From V.Gen Require Wiring.
+
+(* a provider that is told a token lifetime d > 0 and re-stamps the session before applying it leaves a session that
+   is not expired at the time of the refresh, whatever its previous age; the lifetime counts from the refresh *)
+Theorem c12_refreshed_session_usable : forall created now d, (0 < d)%Z ->
+  Lifetime.usable_after_refresh true created now d = true /\ (Lifetime.expiry_after_refresh true created now d - now = d)%Z.
+Proof. intros created now d H. split; [exact (LifetimeProofs.refreshed_session_usable created now d H) | exact (LifetimeProofs.refreshed_expiry_is_lifetime created now d)]. Qed.
+Print Assumptions c12_refreshed_session_usable.
+
+(* the same call without the re-stamp: any session at least as old as the new lifetime is expired by its own refresh *)
+Theorem c12_unstamped_refresh_expired : forall created now d, (created + d <= now)%Z ->
+  Lifetime.usable_after_refresh false created now d = false.
+Proof. exact LifetimeProofs.unstamped_refresh_expired. Qed.
+Print Assumptions c12_unstamped_refresh_expired.
+
+(* every call of ExpiresIn REGENERATED from the providers and the proxy on this run comes straight after CreatedAtNow on
+   the same session - or is the login-time default of redeemCode, which runs after `if s.CreatedAt == nil { CreatedAtNow }`
+   on a session the provider has just created *)
+Theorem c12_expires_in_sites_pinned :
+  Wiring.expires_in_sites =
+    [s "oauthproxy.go|redeemCode|<first statement of its block>";
+     s "providers/google.go|Redeem|restamped";
+     s "providers/google.go|redeemRefreshToken|restamped";
+     s "providers/logingov.go|Redeem|restamped"].
+Proof. vm_compute. reflexivity. Qed.
+Print Assumptions c12_expires_in_sites_pinned.
